@@ -54,6 +54,21 @@ def getLoop (matchf : Bytes → Bool) (t : Table) : (fuel i : Nat) → Option Na
       | none => getLoop matchf t fuel (i + 2)
     else none
 
+/-- the number of key comparisons the lookup loop makes (its cost; the hook counter `htp_verif_table_cmp` in the code) -/
+def getLoopCost (matchf : Bytes → Bool) (t : Table) : (fuel i : Nat) → Nat
+  | 0, _ => 0
+  | fuel + 1, i =>
+    if i < Ring.size t.list then
+      match keyAt t i with
+      | some k => if matchf k then 1 else 1 + getLoopCost matchf t fuel (i + 2)
+      | none => 1 + getLoopCost matchf t fuel (i + 2)
+    else 0
+
+def getCost (t : Table) (key : Bytes) : Nat :=
+  getLoopCost (fun k => Bstr.cmpMemNocase k key == 0) t (Ring.size t.list) 0
+def getCCost (t : Table) (key : Bytes) : Nat :=
+  getLoopCost (fun k => Bstr.cmpMemNocaseNorzero k key == 0) t (Ring.size t.list) 0
+
 /-- htp_table_get / htp_table_get_mem: bstr_cmp_nocase(candidate, key) == 0 -/
 def get (t : Table) (key : Bytes) : Option Nat :=
   getLoop (fun k => Bstr.cmpMemNocase k key == 0) t (Ring.size t.list) 0
